@@ -55,6 +55,15 @@ def replaceN (s old new : Str) (n : Int) : Str :=
   else if old = [] then s   -- not used with an empty pattern
   else replaceNAux old new s.length n.toNat s
 
+/-- `str(x)` for the float with identity `fid` (floats are opaque atoms; any fixed function will do) -/
+def strOfFloat (fid : Int) : Str := [102, 108, 111, 97, 116, 35] ++ strOfInt fid
+
+/-- `s[:-1]` -/
+def dropLast1 (s : Str) : Str := s.dropLast
+
+/-- `s.endswith(suf)` -/
+def endsWith (s suf : Str) : Bool := suf.isSuffixOf s
+
 theorem stripPre_append (v r : Str) : stripPre v (v ++ r) = some r := by
   induction v with
   | nil => simp [stripPre]
